@@ -5,11 +5,16 @@ I  spec/js/JsLexImpl.tla   js.Lexer.Next / RegExp over a class alphabet, functio
    TLC: I => P on every class string up to the bound, per sub-alphabet (JsLexImpl_<name>.cfg): proto/TokenStream.tla (non-empty,
    contiguous, ordered, nothing skipped), exactly one error report, longest match / canonical names / neighbours per JsTokens.tla,
    number and regular-expression languages, bracket bookkeeping.  Defect configurations (plausible regressions) must be rejected.
+   Every predicted report carries `det`: TRUE iff the property-level definition prescribes that token there (TLC: DetSound - a token
+   flagged det is what JsTokens.tla's longest match and clause 12 yield; thorough tier also DetComplete - nothing prescribed is left unflagged).
    Differential replay: every class string with the model's predicted reports -> `vdrive jstok impl` -> compared with js.Lexer on
-   representative bytes.  A difference is MODEL DRIFT (ck.cov["model_drift"]), never a violation; the traces of differing cases (and a
-   sample of the others) are judged by JsTokensTrace.tla exactly as C06.py judges its own traces.
+   representative bytes.  A difference is MODEL DRIFT (ck.cov["model_drift"]).  Where the first differing report is flagged det (the
+   standard decides), the trace is written with the model's tokens as its expectation and JsTokensTrace.tla judges it like a generator
+   case: its rejection becomes a VIOLATION jstok/impl/<prescribed kind>|<observed> with a reproduction (C06.judge).  Every other
+   differing trace (and a sample of the agreeing ones) is judged by the all-input invariants alone and stays drift.
 """
 import concurrent.futures
+import json
 import os
 import re
 
@@ -23,7 +28,8 @@ DEFECTS = [("defect_rbrace", "Brackets", "'}' continues a template whenever temp
            ("defect_exp", "NumLang", "exponent without digits accepted as DecimalToken"),
            ("defect_numident", "Adjacent", "identifier directly after a number not refused"),
            ("defect_gtgtgt", "LongestMatch", "'>>>' does not look for a following '='"),
-           ("defect_reclass", "ReLang", "RegExp(): '/' inside a character class ends the literal")]
+           ("defect_reclass", "ReLang", "RegExp(): '/' inside a character class ends the literal"),
+           ("defect_det", "DetSound", "the flag det set on a numeric token although an identifier character or digit follows ('0b1' in '0b12')")]
 # vacuity: what a quick run must have predicted at least once
 PUNCT = ["{", "}", "(", ")", "[", "]", ".", "...", ";", ",", "<", ">", "<=", ">=", "==", "!=", "===", "!==", "+", "-", "*", "/", "%", "**", "++", "--",
          "<<", ">>", ">>>", "&", "|", "^", "!", "~", "&&", "||", "??", "?", "?.", ":", "=", "+=", "-=", "*=", "/=", "%=", "**=", "<<=", ">>=", ">>>=",
@@ -38,6 +44,29 @@ _RE_INIT = re.compile(r"Finished computing initial states: (\d+) distinct state"
 def _tlc(ck, name, label, thorough, **kw):
     return ck.tlc("js", "JsLexImpl", "JsLexImpl_%s.cfg" % name, label=label, count=False, workers=4, heap="2g" if thorough else "1g",
                   lib_dirs=(vcheck.COMMON, os.path.join(vcheck.SPEC, "proto")), timeout=2400 if thorough else 280, **kw)
+
+
+def _selftest(ck):
+    """Binding of the candidate path (on the unchanged tree no input differs, so nothing else exercises it): a planted prediction
+    that differs from js.Lexer at a report flagged det must come back as a candidate and be rejected by JsTokensTrace.tla at that
+    report; the same kind of difference without the flag must stay drift (a free trace, accepted)."""
+    def tok(tt, n, hi, det=False, err=""):
+        return {"tt": tt, "n": n, "hi": hi, "re": False, "err": err, "det": det, "pre": ""}
+    cases = [{"cls": ["letter", "semi"], "toks": [tok("Identifier", 1, 1, True), tok(",", 1, 2, True), tok("Error", 0, 2, err="EOF")]},
+             {"cls": ["letter", "comma"], "toks": [tok("Identifier", 1, 1, True), tok(";", 1, 2, False), tok("Error", 0, 2, err="EOF")]}]
+    cp, tp = ck.path("implself.ndjson"), ck.path("implself-trace.ndjson")
+    with open(cp, "w") as f:
+        for c in cases:
+            f.write(json.dumps(c) + "\n")
+    s = ck.drive("jstok", "impl", "-cases", cp, "-out", tp, "-seed", ck.seed, "-traceevery", 0, "-variants", 1)
+    fails = ck.validate("js", "JsTokensTrace", "JsTokensTrace.cfg", tp, shards=1)
+    ck.cov["traces_validated_against_impl"] -= 2
+    got = [(f["trace"][0].get("free"), f["trace"][0].get("ek"), f["i"]) for f in fails]
+    if (s.get("mismatches"), s.get("candidates"), s.get("traces")) != (2, 1, 2) or got != [(False, ["Identifier", ","], 2)]:
+        ck.fatal("selftest: planted differences (one prescribed, one open) gave mismatches/candidates/traces %s/%s/%s and rejections %s" %
+                 (s.get("mismatches"), s.get("candidates"), s.get("traces"), got))
+    os.remove(cp)
+    os.remove(tp)
 
 
 def run(ck, thorough):
@@ -94,20 +123,37 @@ def run(ck, thorough):
     missing = [x for x in PUNCT + KINDS if not types.get(x)] + ["error:" + x for x in ERRS if not errs.get(x)]
     if missing:
         ck.fatal("JsLexImpl: never predicted in this run (vacuity): %s" % missing)
+    det = s.get("det_types") or {}
+    missing = [x for x in PUNCT + KINDS if not det.get(x)]
+    if missing or not s.get("det_reports"):
+        ck.fatal("JsLexImpl: never flagged as prescribed (det) in this run (vacuity): %s" % missing)
     ck.cov["evaluations"] += s["executions"]
     ck.cov["distinct_nontrivial"] += s["distinct_nontrivial"]
     ck.cov["samples"] += (s.get("samples") or [])[:1]
     ck.cov["impl_model"] = {"spec": "js/JsLexImpl.tla", "configs": info, "class_strings": s["cases"], "reports_compared": s["reports_compared"],
                             "regexp_calls": s["regexp_calls"], "differences": s["mismatches"],
+                            "reports_flagged_prescribed": s["det_reports"], "candidate_violations": s["candidates"],
                             "defect_configs_rejected": {n: prop for n, prop, _ in DEFECTS},
                             "rule": "every string over each configuration's sub-alphabet up to its bound (inputs) with the reports JsLexImpl.tla predicts; "
-                                    "classes spelled by seed; compared: token type, byte length of the data, cursor after the call, RegExp() or Next, error message"}
+                                    "classes spelled by seed; compared: token type, byte length of the data, cursor after the call, RegExp() or Next, error message; "
+                                    "a differing input is a candidate violation iff its first differing report is flagged det by the model (DetSound), "
+                                    "the input is valid UTF-8 and every class is spelled by an exact representative; candidates are judged by "
+                                    "JsTokensTrace.tla against the model's tokens"}
     ck.log("JsLexImpl: %d class strings, %d reports compared, %d differ from the model" % (s["cases"], s["reports_compared"], s["mismatches"]))
     if s["mismatches"]:
         # MODEL-DRIFT: evidence only (DESIGN.md 2.1); whether the code is wrong is decided below by the property-level trace spec alone
         ck.cov["model_drift"] += [{"spec": "js/JsLexImpl.tla", "cases_differing": s["mismatches"]}] + (s.get("drift_samples") or [])[:6]
-        ck.notes.append("MODEL-DRIFT: js.Lexer differs from spec/js/JsLexImpl.tla on %d class strings (see coverage.model_drift)" % s["mismatches"])
+        ck.notes.append("MODEL-DRIFT: js.Lexer differs from spec/js/JsLexImpl.tla on %d class strings (see coverage.model_drift); on %d of them "
+                        "the first differing report is one the standard prescribes: judged against the model's tokens" % (s["mismatches"], s["candidates"]))
+        ck.cov["model_drift"] += [{"candidate": x} for x in (s.get("candidate_samples") or [])[:3]]
     import C06                      # the traces are judged exactly as C06 judges its own
-    C06.judge(ck, ck.validate("js", "JsTokensTrace", "JsTokensTrace.cfg", tp, timeout=1800), "impl")
+    fails = ck.validate("js", "JsTokensTrace", "JsTokensTrace.cfg", tp, timeout=1800)
+    judged = sum(1 for f in fails if not f["trace"][0].get("free"))
+    if judged != s["candidates"]:
+        # a candidate differs from an expected token in kind, extent, text or the token before RegExp(): Matches cannot accept it
+        ck.fatal("jstok impl: %d candidate traces written with an expectation, %d rejected by JsTokensTrace.tla" % (s["candidates"], judged))
+    C06.judge(ck, fails, "impl")
+    if not ck.violations and not ck.known_hits:
+        _selftest(ck)               # (assumes that the lexer under test lexes 'g;' as an identifier and a semicolon)
     os.remove(tp)
     os.remove(allc)
